@@ -144,7 +144,7 @@ def check_table(rec, idx, workdir, seed, corrupt=None):
                     if not optional:
                         row = dict(row, tumour_content=1.0, error_rate=0.001)    # the documented defaults
                     ref = reference_row(row, d, optional=True)
-                    if not np.array_equal(dp.value[si], ref):
+                    if dp.value[si].shape != ref.shape or not np.allclose(dp.value[si], ref, rtol=0, atol=1e-12):
                         probs.append(("C17|row_value", "likelihood row of %s in sample %s differs from that row loaded alone%s (max dev %.3g)" % (
                             dp.name, sn, "" if optional else " with tumour_content=1.0, error_rate=0.001", float(np.max(np.abs(dp.value[si] - ref)))), rep))
             cur = [(dp.name, dp.idx, dp.value.tobytes()) for dp in data]
